@@ -465,6 +465,101 @@ def stage_history(ctx: Ctx):
                     break
 
 
+FIELD_PROGS = [
+    'a = b = 1', 'x = {**p, q: 1, **r}', 'def f(a, *, k, j=1): pass', 'x = lambda *, k, j=1: 0', 'def g():\n  global m, n\n  return m', 'def g():\n  def h():\n    nonlocal g, u',
+    'match v:\n  case C(p, k=1, j=2): pass\n  case {1: a, **r}: pass\n  case [a, *b]: pass\n  case a | b: pass', '@d1\n@d2\nclass K(B, m=M): pass', 'x = [i for i in j if k if l]',
+    'x = a < b <= c', 'x = f(a, *b, k=1, **c)', 'with a as b, c: pass', 'import a, b.c as d', 'from m import a, b as c', 'del a, b', 'x = "5 \u00b5m"', 'x = "\ufb01le"', 'x = "\uff21\u00b2"',
+    'try: pass\nexcept E: pass\nexcept F as e: pass', 'type T[A, *B] = C', 'x = a and b and c', 'x = f"{a}b{c!r}"', 'for i in j: pass\nelse: pass', 'def f():\n  """doc"""\n  return 1',
+    'def f():\n  global \ufb01, b\n', 'match v:\n  case C(\ufb01=1, b=2): pass\n', 'def f():\n  def g():\n    nonlocal \ufb01\n', 'def f():\n  global a, \\\n b\n', 'import \ufb01.\ufb02 as \ufb03',
+    'def \ufb01(\ufb02, *\ufb03): pass', 'f(\ufb01=1)', 'x.\ufb01 = 1', 'match v:\n  case {**\ufb01}: pass\n  case [*\ufb02]: pass\n  case x as \ufb03: pass',
+    'x = {a, b}', 'x = (a, b)', 'x = [a, b]', 'x = {k: v for k, v in d}', 'async def f(): pass', 'x[a:b, c]', 'x: int = 1', 'if a: pass\nelif b: pass\nelse: pass',
+]
+
+
+def stage_field_sweep(ctx: Ctx):
+    """every field of every node of a set of programs (list fields that hold None, identifier lists, non-ASCII strings, virtual-view fields), as a pattern
+    built from the node's OWN AST: plain and wrapped in M(tag=) / MOR / MAND / MNOT(MNOT()): the formatted node and its pure AST both match; with one element
+    dropped / doubled or the string changed neither matches; a back-reference to the captured field matches a second copy of the statement"""
+    import fst, unicodedata
+    import fst.match as fm
+    from fst.match import M, MOR, MAND, MNOT, MTAG, MModule, MTuple
+
+    def wraps(v):
+        out = [('plain', lambda: v), ('M(t=)', lambda: M(t=v)), ('MOR', lambda: MOR(v)), ('MAND', lambda: MAND(v)), ('MNOT(MNOT)', lambda: MNOT(MNOT(v)))]
+        return out
+
+    def variants(v):
+        if isinstance(v, list):
+            for i in range(len(v)):
+                yield f'drop[{i}]', v[:i] + v[i + 1:]
+            if v:
+                yield 'doubled-last', v + [v[-1]]
+                yield 'prepended-None', [None] + v
+        elif isinstance(v, str):
+            yield 'suffix', v + '_x'
+            n = unicodedata.normalize('NFKC', v)
+            if n != v:
+                yield 'nfkc', n
+
+    def both(pat_of, f):
+        res = []
+        for route in ('fst', 'ast'):
+            try:
+                pat = pat_of()
+                res.append(pat.match(f if route == 'fst' else f.copy_ast()) is not None)
+            except Exception as e:
+                res.append(f'!{type(e).__name__}: {e}'[:120])
+        return res
+    for src in FIELD_PROGS:
+        root = fst.FST(src, 'exec')
+        for f in root.walk(True):
+            cls = type(f.a)
+            Mcls = getattr(fm, 'M' + cls.__name__, None)
+            if Mcls is None or f.parent is None:
+                continue
+            for field in cls._fields:
+                pa = f.copy_ast()
+                v = getattr(pa, field, None)
+                for wname, w in wraps(v):
+                    try:
+                        w()
+                        Mcls(**{field: w()})
+                    except Exception:
+                        continue          # this wrapper does not take this kind of value
+                    got = both(lambda: Mcls(**{field: w()}), f)
+                    ctx.tick(('field', src, root.child_path(f, True), field, wname), 'field:self')
+                    if got != [True, True]:
+                        ctx.violation(f'field-self|{cls.__name__}.{field}|{wname}|{got}', 'a node does not match (on the formatted tree and on the pure AST alike) the pattern built from its own field value',
+                                      {'src': src, 'node': cls.__name__, 'node_src': f.src[:80], 'field': field, 'value': repr(v)[:80], 'wrapped': wname, 'formatted_tree': got[0], 'pure_ast': got[1]})
+                    for vname, v2 in variants(v):
+                        w2 = {'plain': lambda: v2, 'M(t=)': lambda: M(t=v2), 'MOR': lambda: MOR(v2), 'MAND': lambda: MAND(v2), 'MNOT(MNOT)': lambda: MNOT(MNOT(v2))}[wname]
+                        got = both(lambda: Mcls(**{field: w2()}), f)
+                        ctx.tick(('field', src, root.child_path(f, True), field, wname, vname), 'field:differs')
+                        if got != [False, False]:
+                            ctx.violation(f'field-differs|{cls.__name__}.{field}|{wname}|{vname}|{got}', 'a node matches a pattern that differs from it in one field (or the formatted tree and the pure AST disagree)',
+                                          {'src': src, 'node': cls.__name__, 'node_src': f.src[:80], 'field': field, 'value': repr(v)[:80], 'pattern_value': repr(v2)[:80] if not isinstance(v2, list) else f'{vname} of the value',
+                                           'wrapped': wname, 'formatted_tree': got[0], 'pure_ast': got[1]})
+        # back-references to a captured field: the statement twice
+        for st in root.body:
+            two = fst.FST(st.src + '\n' + st.src, 'exec')
+            if len(two.a.body) != 2:
+                continue
+            cls = type(st.a)
+            Mcls = getattr(fm, 'M' + cls.__name__)
+            for field in cls._fields:
+                mk = lambda: MModule(body=[Mcls(**{field: M(t=...)}), Mcls(**{field: MTAG('t')})])
+                got = []
+                for route in ('fst', 'ast'):
+                    try:
+                        got.append(mk().match(two if route == 'fst' else two.copy_ast()) is not None)
+                    except Exception as e:
+                        got.append(f'!{type(e).__name__}: {e}'[:120])
+                ctx.tick(('backref-field', st.src, field), 'field:backref')
+                if got != [True, True]:
+                    ctx.violation(f'field-backref|{cls.__name__}.{field}|{got}', 'a back-reference to a captured field does not match an identical second statement (on the formatted tree and on the pure AST alike)',
+                                  {'src': two.src, 'node': cls.__name__, 'field': field, 'formatted_tree': got[0], 'pure_ast': got[1]})
+
+
 def run(ctx: Ctx):
     ctx.rule = ('(1) pattern sequences (<=2 items exhaustively sampled, 3 items random; items over {a, b, ., Q(a), Q(.), Q([a;b])} x {*, +, ?, {1,2}} x greedy/lazy) '
                 'x element sequences over {a,b,c} up to length 4 (quick) / 5 (thorough): real matcher vs re.fullmatch (accept + repetition counts) and vs the Coq '
@@ -478,6 +573,7 @@ def run(ctx: Ctx):
     run_guarded(ctx, stage_backrefs)
     run_guarded(ctx, stage_nested)
     run_guarded(ctx, stage_history)
+    run_guarded(ctx, stage_field_sweep)
     progs = corpus(ctx.rng, gen=ctx.scale(6, 60))
     run_guarded(ctx, stage_search, progs)
     run_guarded(ctx, stage_structure, [p for p in progs if len(p) < 1200])
